@@ -683,3 +683,47 @@ Proof.
     { apply existsb_exists. exists (nthq Ks i). split; [apply nth_In; exact Hi|]. apply qzerob_true. exact D. }
     congruence.
 Qed.
+(* ------------------------------------------------------------------ homogeneity: the pieces that make the flash scale *)
+Lemma qltb_scale k a b : 0 < k -> qltb (k * a) (k * b) = qltb a b.
+Proof.
+  intros K. destruct (qltb a b) eqn:E.
+  - apply qltb_true in E. apply qltb_true. nra.
+  - apply qltb_false in E. apply qltb_false. nra.
+Qed.
+
+Lemma clip1_scale k v m : 0 < k -> clip1 (k * v) (k * m) == k * clip1 v m.
+Proof.
+  intros K. unfold clip1. rewrite qltb_scale by exact K.
+  destruct (qltb m v).
+  - assert (E : qltb (k * m) 0 = qltb m 0).
+    { destruct (qltb m 0) eqn:E.
+      - apply qltb_true in E. apply qltb_true. nra.
+      - apply qltb_false in E. apply qltb_false. nra. }
+    rewrite E. destruct (qltb m 0); ring.
+  - assert (E : qltb (k * v) 0 = qltb v 0).
+    { destruct (qltb v 0) eqn:E.
+      - apply qltb_true in E. apply qltb_true. nra.
+      - apply qltb_false in E. apply qltb_false. nra. }
+    rewrite E. destruct (qltb v 0); ring.
+Qed.
+
+Lemma rr2_scale k z1 z2 K1 K2 V : ~ k == 0 -> rr2 z1 z2 K1 K2 = Ok V ->
+  exists V', rr2 (k * z1) (k * z2) K1 K2 = Ok V' /\ V' == V.
+Proof.
+  intros K H. unfold rr2 in *.
+  destruct (qzerob (rr2_den z1 z2 K1 K2)) eqn:E; [discriminate|]. apply qzerob_false in E.
+  injection H as HV.
+  assert (D : rr2_den (k * z1) (k * z2) K1 K2 == k * rr2_den z1 z2 K1 K2) by (unfold rr2_den; ring).
+  assert (N : rr2_num (k * z1) (k * z2) K1 K2 == k * rr2_num z1 z2 K1 K2) by (unfold rr2_num; ring).
+  assert (ND : ~ rr2_den (k * z1) (k * z2) K1 K2 == 0).
+  { rewrite D. intros Z. apply Qmult_integral in Z. tauto. }
+  assert (E' : qzerob (rr2_den (k * z1) (k * z2) K1 K2) = false) by (apply qzerob_false; exact ND).
+  rewrite E'. eexists. split; [reflexivity|].
+  rewrite <- HV. rewrite D, N. field. split; assumption.
+Qed.
+
+Lemma rr_scale k zs : forall Ks V, rr (vscale k zs) Ks V == k * rr zs Ks V.
+Proof.
+  unfold rr, qsum. induction zs as [|z zs IH]; intros [|K Ks] V; cbn [vscale map map2 fold_right]; try ring.
+  rewrite IH. unfold rr_term. unfold Qdiv. ring.
+Qed.
